@@ -266,4 +266,20 @@ MUTANTS = [
          old="                        if isinstance(x, Exception):\n                            q_out.put((uid, RemoteException(x)))\n                        elif", new="                        if isinstance(x, Exception):\n                            q_out.put((uid, RemoteException(x)))\n                            if buffer.qsize() == 1:\n                                buffer.put((uid, x))\n                        elif"),
     dict(id='C09-m5', prop='C09', file='mpserver/_worker.py', desc='single mode with batch_size=1 passes the bare element instead of [x] when preprocess is defined',
          old="                q_uid.put(uid)\n                if batched:\n                    yield [x]", new="                q_uid.put(uid)\n                if batched and preprocess is None:\n                    yield [x]"),
+    # ---------------- C04
+    dict(id='C04-m1', prop='C04', file='mpserver/_worker.py', desc='batch failure is sent to the first member only, the others get the raw exception-less None',
+         old="                    for u in uids:\n                        q_out.put((u, err))", new="                    for u in uids[:1]:\n                        q_out.put((u, err))\n                    for u in uids[1:]:\n                        q_out.put((u, None))"),
+    dict(id='C04-m2', prop='C04', file='mpserver/_servlet.py', desc='switch servlet wraps an upstream RemoteException again instead of forwarding it (error type becomes ValueError/garbage)',
+         old="            if isinstance(x, RemoteException):\n                # short circuit exception to the output queue\n                qout.put((uid, x))\n                continue\n\n            # Determine",
+         new="            if isinstance(x, RemoteException):\n                qout.put((uid, RemoteException(RuntimeError(str(x.exc)), x.tb)))\n                continue\n\n            # Determine"),
+    dict(id='C04-m3', prop='C04', file='mpserver/_servlet.py', desc='fail_fast checks completion first: a failing last member yields a list instead of EnsembleError',
+         old="                    if fail_fast and isinstance(y, RemoteException):", new="                    if fail_fast and isinstance(y, RemoteException) and z['n'] < nn:"),
+    dict(id='C04-m4', prop='C04', file='multiprocessing/remote_exception.py', desc='RemoteException formats the traceback without frames (limit=0) when the exception has a non-default constructor',
+         old="                tb = ''.join(\n                    traceback.format_exception(type(exc), exc, exc.__traceback__)\n                )",
+         new="                tb = ''.join(\n                    traceback.format_exception(type(exc), exc, exc.__traceback__, limit=0 if len(exc.args) > 2 else None)\n                )"),
+    dict(id='C04-m5', prop='C04', file='mpserver/_worker.py', desc='preprocess failure in single mode is reported with the exception of the previous failure (stale variable)',
+         old="                        try:\n                            x = preprocess(x)\n                        except Exception as e:\n                            x = e\n\n                # If it's an exception, short-circuit to output.",
+         new="                        try:\n                            x = preprocess(x)\n                        except Exception as e:\n                            x = getattr(self, '_last_pre_err', None) or e\n                            self._last_pre_err = x\n\n                # If it's an exception, short-circuit to output."),
+    dict(id='C04-m6', prop='C04', file='mpserver/_servlet.py', desc='ensemble all-failed rule off by one: EnsembleError when all but one member failed',
+         old="                        if all(isinstance(v, RemoteException) for v in z['y']):", new="                        if sum(isinstance(v, RemoteException) for v in z['y']) >= max(1, nn - 1) and nn > 2:"),
 ]
